@@ -238,7 +238,21 @@ def plist_slice(eng, base, sl):
         p.proto = base.proto
         return p
     if sl.step not in (None, 1):
-        raise Unsupported("strided slice of symbolic list")
+        # L[a:b:step] with a CONCRETE step: a new list of len(range(*slice.indices(len(L)))) elements, element t = L[lo + t*step]
+        # (the models of slice.indices / range, cross-checked against CPython; list slices: tools/xcheck_C19_models.py)
+        if isinstance(sl.step, Sym) or isinstance(sl.step, bool) or not isinstance(sl.step, int) or len(base.cols) > 1:
+            raise Unsupported("strided slice of symbolic list")
+        from . import models as _M
+
+        used(eng, "list-slice-with-a-concrete-step: L[a:b:s] is a new list, element t = L[lo + t*s] for t < len(range(*slice(a, b, s).indices(len(L))))")
+        lo, hi, st = _M.slice_indices(eng, sl, [eng.snum(base.nz(), "int")], {})
+        n, get = _M.as_sequence(eng, _M._SymRange(lo, hi, st))
+        p = PList()
+        p.items, p.kinds, p.tup = None, [base.kinds[0]], False
+        p.cols = [lam(lambda t: z3.Select(base.cols[0], to_z3(get(Sym(t, "int")), "int")), base.kinds[0])]
+        p.n = n if isinstance(n, (int, z3.ExprRef)) else to_z3(n, "int")
+        p.proto = base.proto
+        return p
     tmp = SArr(base.cols[0], base.n, base.kinds[0])
     v = slice_view(eng, tmp, sl)
     p = PList()
@@ -938,6 +952,9 @@ class S2Arr:
                 if not -self.k <= idx < self.k:
                     raise ProgExc(IndexError, "row index")
                 return SArr(self.cols[idx], self.n, self.kind, name="row")
+            if isinstance(idx, slice) and all(isinstance(b, int) or b is None for b in (idx.start, idx.stop, idx.step)):
+                # A.T[a:b:c] with concrete bounds: the selected rows (= columns of A), still k' x n
+                return S2Arr(self.cols[idx], self.n, self.kind, transposed=True)
             raise Unsupported("index form on a transposed symbolic 2-D array")
         if isinstance(idx, tuple) and len(idx) == 2 and isinstance(idx[1], int):
             iz = norm_index(eng, idx[0], self.n, "row index")
